@@ -5,6 +5,7 @@ From Coq Require Import Extraction ExtrOcamlBasic ExtrOcamlString.
 From QSX Require Import Base.QSum LP.ILP LP.Cert LP.User LP.OptTest LP.Driver.
 From QSX Require Import LP.Transform Float.Conv LP.Codes LP.LibSolution.
 From QSX Require Import Fac.Gauss Fac.Basis Fac.Factor.
+From QSX Require Import IO.Num IO.Equiv IO.Bounds IO.Bas IO.Sol.
 (* one Require line per area may be added below *)
 
 Extraction Language OCaml.
@@ -19,5 +20,8 @@ Extraction "model.ml"
   lib_solution internal_min
   lpstat_of_code code_of_lpstat col_bstat_of_code row_bstat_of_code max_levels
   inverse null_vector solve solve_left mat_vec vec_mat veqb check_binv_row check_tableau_row check_ftran check_btran basis_optimalstatus basis_dualstatus Bmat bazl zfull yuser nonbasic_ok xB_of pi_of load_ok objval_l coefAt ftran btran ftran_dense check_repr wf_repr
+  read_num_gen get_value print_num equiv_by_name row_empty encode_bounds decode_bounds
+  write_basis read_basis qs_write_basis
+  print_section parse_line
   (* add names below, one line per area *)
   .
